@@ -434,6 +434,15 @@ impl F64Table {
         }
     }
 
+    /// (verification hook) number of entries of the table.
+    #[cfg(feature = "verif-hooks")]
+    pub(crate) fn verif_entry_count(&self) -> usize {
+        match self {
+            F64Table::Serial(serial_tbl) => serial_tbl.indirection_tbl.len(),
+            F64Table::Concurrent(concurrent_tbl) => concurrent_tbl.indirection_tbl.lock().len(),
+        }
+    }
+
     #[cfg(test)]
     pub(crate) fn entry_count(&self) -> usize {
         match self {
